@@ -18,13 +18,14 @@ VARIABLES canon,   \* the resolver's current chain: sequence of blocks, heights 
 vars == <<canon, pend, ps, held, bad, reorgs>>
 
 Deliver(st) ==
-  LET r == PStep(ps, st, StartC)
+  LET r == PStep(ps, st, StartC, FALSE)
       RECURSIVE Go(_, _, _)
       Go(h, ms, b) ==
         IF ms = <<>> THEN [held |-> h, bad |-> b]
         ELSE LET m == Head(ms)
-                 nb == IF b # "" THEN b
+                 nb == IF b = "data_below_start_block" THEN b
                        ELSE IF m.k = "data" /\ m.b.h < StartC THEN "data_below_start_block"
+                       ELSE IF b # "" THEN b
                        ELSE IF ~UndoOK(h, m) THEN "undo_signal_designates_block_client_does_not_hold"
                        ELSE IF ~DataOK(h, m) THEN "two_blocks_at_same_height_without_undo"
                        ELSE "" IN
@@ -59,6 +60,7 @@ Next == (\E br \in Branches : Extend(br)) \/ (\E j \in 1..MaxH : Reorg(j)) \/ Un
 Spec == Init /\ [][Next]_vars
 
 NoBadMessage == bad = ""
+NoDataBelowStart == bad # "data_below_start_block"
 \* between reorganisations the client holds exactly the canonical chain from the start block on
 ClientIsCanonical ==
   pend = <<>> => held = SelectSeq(canon, LAMBDA b : b.h >= StartC)
